@@ -446,7 +446,8 @@ def compare_dir(out, lang, user_headers, user_incs, label):
                 # the interface of a callback argument, not a C function: it must describe the function type the C side calls.
                 # Shroud names it <function>_<argument>; the C functions with a function-pointer parameter of that name decide
                 cands = [(fn_, v) for (fn_, pn_), v in CALLBACKS.items()
-                         if name.lower().endswith("_" + pn_) and fn_.lower().replace("_", "").endswith(name.lower()[: -len(pn_) - 1].replace("_", ""))]
+                         if name.lower().endswith("_" + pn_) and (fn_.lower().replace("_", "").endswith(name.lower()[: -len(pn_) - 1].replace("_", ""))
+                                                                  or re.search(r"(^|_)%s_\d+$" % re.escape(name.lower()[: -len(pn_) - 1]), fn_.lower()))]  # overloads: <name>_<n>
                 for fret, fparams, ftext in variants:
                     for fn_, (cret, cparams, ctext) in cands:
                         nif += 1
@@ -678,6 +679,16 @@ def stmt_libs():
         if lang == "c":
             cy["language"] = "c"
         out.append(("callback parameter kinds (%s)" % lang, lang, cy, hname, "#include <stddef.h>\n" + ("#include <stdbool.h>\n" if lang == "c" else "") + ";\n".join(pdecls) + ";\n"))
+    # getters and setters of class data members: value members by value, pointer members as pointers
+    mhdr = "class Foo { public: Foo() {} int count; double scale; double *dv; int *ids; long big; bool flag; };\n"
+    my = {"library": "mem", "cxx_header": "mem.hpp", "options": {"wrap_python": False, "wrap_lua": False}, "declarations": [
+        {"decl": "class Foo", "declarations": [{"decl": "Foo()"}, {"decl": "int count"}, {"decl": "double scale"}, {"decl": "double *dv"},
+                                               {"decl": "int *ids +dimension(count)"}, {"decl": "long big +readonly"}, {"decl": "bool flag"}]}]}
+    out.append(("getters and setters of data members", "cxx", my, "mem.hpp", mhdr))
+    # two overloads that each take a callback under the same argument name, with different function types
+    oy = {"library": "ovc", "cxx_header": "ovc.hpp", "options": {"wrap_python": False, "wrap_lua": False}, "declarations": [
+        {"decl": "void apply(int n, int (*fn)(int))"}, {"decl": "void apply(double x, double (*fn)(double))"}]}
+    out.append(("overloads with callbacks of one name", "cxx", oy, "ovc.hpp", "void apply(int n, int (*fn)(int));\nvoid apply(double x, double (*fn)(double));\n"))
     return out
 
 
